@@ -1,5 +1,22 @@
-(* C15 — placeholder until the engine theorems are added below. *)
-From WF Require Import model.Base model.EngineBase model.Engine.
-Theorem C15_emit_dead_silent : forall t s, o_dead s = true -> emit t s = (Ok tt, s).
-Proof. intros t s H. unfold emit. now rewrite H. Qed.
-Print Assumptions C15_emit_dead_silent.
+(* C15 — data deletion. Property theorems only (quantification as in C16.v). *)
+From WF Require Import model.Base model.RunState model.Graph model.EngineBase model.Engine model.Monitors
+  proofs.RunStateProofs proofs.EngineTokens proofs.EngineProps.
+
+(* DeleteData is accepted (a RequestedDataDeleted write happens) only for Completed, Cancelled or DataDeleted runs *)
+Theorem C15_request_eligible : forall c ops, hist_ok ops -> forall p r a, In (TStore (Some p) r a) (trace_of c ops) ->
+  r_state r = RSReqDataDeleted -> r_state p = RSCompleted \/ r_state p = RSCancelled \/ r_state p = RSDataDeleted.
+Proof. exact p_delete_request_eligible. Qed.
+Print Assumptions C15_request_eligible.
+
+(* the scrub: only a run whose deletion was requested becomes DataDeleted; status, identifiers and creation time are
+   unchanged, the version grows by one *)
+Theorem C15_scrub_shape : forall c ops, hist_ok ops -> forall p r a, In (TStore (Some p) r a) (trace_of c ops) ->
+  r_state r = RSDataDeleted ->
+  (r_state p = RSReqDataDeleted \/ r_state p = RSDataDeleted) /\ r_status r = r_status p /\
+  r_wf r = r_wf p /\ r_fid r = r_fid p /\ r_run r = r_run p /\ r_created r = r_created p /\ r_ver r = r_ver p + 1.
+Proof. exact p_scrub_shape. Qed.
+Print Assumptions C15_scrub_shape.
+
+Theorem C15_eligible_table : forall s, ctl_documented s OpDeleteData = true <-> (s = RSCompleted \/ s = RSCancelled \/ s = RSDataDeleted).
+Proof. exact delete_eligible. Qed.
+Print Assumptions C15_eligible_table.
